@@ -1,6 +1,15 @@
-import sys, os, argparse, importlib, traceback, json
+import sys, os, argparse, importlib, traceback, json, subprocess
 sys.path.insert(0, os.path.dirname(os.path.abspath(__file__)))
 import common
+
+
+# number of extra-seed worker processes of the thorough tier, per property (0 = the workload does not depend on the seed
+# enough to be worth it, or is already large)
+FANOUT = {'C04': 4, 'C05': 6, 'C07': 6, 'C09': 10, 'C10': 10, 'C11': 10, 'C12': 10, 'C13': 10, 'C14': 10, 'C15': 4, 'C16': 10,
+          'C17': 4, 'C18': 8, 'C19': 10, 'C20': 10}
+
+
+WORKER_BUDGET_S = float(os.environ.get('VERIF_WORKER_BUDGET', '150'))
 
 
 def main():
@@ -10,20 +19,62 @@ def main():
     ap.add_argument('--seed', type=int, default=int(os.environ.get('VERIF_SEED', '0') or 0))
     ap.add_argument('--replay', default=None)
     a = ap.parse_args()
+    if a.replay and '--seed' not in sys.argv:
+        try:
+            rp0 = json.load(open(a.replay))
+            a.seed = int(rp0.get('seed', a.seed))
+            if '--tier' not in sys.argv and rp0.get('tier') in ('quick', 'thorough'):
+                a.tier = rp0['tier']
+        except Exception:
+            pass
     common.setup_env()
     chk = common.Check(a.pid, a.tier, a.seed)
     mod = importlib.import_module(a.pid.lower())
     rule = getattr(mod, 'RULE', '')
+    # thorough tier: the same correspondence streams under further seeds in parallel worker processes (no proofs there)
+    procs = []
+    nw = FANOUT.get(a.pid, 0) if (a.tier == 'thorough' and not a.replay and not common.CHILD and not os.environ.get('VERIF_NO_FANOUT')) else 0
+    for i in range(nw):
+        env = dict(os.environ, VERIF_CHILD=str(i + 1), VERIF_NO_COQCHK='1')
+        wf = os.path.join(common.EVIDENCE, 'workers', '%s-%d.json' % (a.pid, i + 1))
+        if os.path.exists(wf):
+            os.remove(wf)
+        procs.append((wf, subprocess.Popen([sys.executable, '-B', os.path.abspath(__file__), a.pid, '--tier', 'thorough', '--seed', str(a.seed * 1000 + 101 + i)],
+                                           env=env, stdout=subprocess.DEVNULL, stderr=subprocess.PIPE)))
     try:
         if a.replay:
             rp = json.load(open(a.replay))
             mod.replay(chk, rp)
+        elif common.CHILD:
+            # an extra-seed worker: successive seeds until the time budget is used
+            import time
+            t0, s0, k = time.time(), a.seed, 0
+            chk.first_seed = s0
+            while True:
+                chk.reseed(s0 + 20 * k)
+                mod.run(chk)
+                k += 1
+                if chk.violations or time.time() - t0 > WORKER_BUDGET_S:
+                    break
+            chk.seeds_run = k
         else:
             mod.run(chk)
     except BaseException as e:  # fail closed
         if isinstance(e, (KeyboardInterrupt, SystemExit)):
             raise
         chk.broken('harness:' + type(e).__name__, traceback.format_exc())
+    chk.workers = []
+    for wf, pr in procs:
+        try:
+            _o, err = pr.communicate(timeout=7200)
+        except subprocess.TimeoutExpired:
+            pr.kill()
+            err = b'worker timed out'
+        if os.path.exists(wf):
+            chk.workers.append(json.load(open(wf)))
+            os.remove(wf)
+        else:
+            chk.broken('worker', 'an extra-seed worker ended without a result: ' + err.decode(errors='replace')[-1500:])
     rc = chk.finish(rule)
     sys.stdout.flush()
     os._exit(rc)
